@@ -535,7 +535,7 @@ def run(ctx, only_case=None):
     t0 = time.time()
     entries = T.extract()
     tab = T.write(entries)
-    ok = build_and_audit(ctx, "XgiModel.Props.C08", ["XgiModel.C08.Drive"])
+    ok = build_and_audit(ctx, "XgiModel.Props.C08", ["XgiModel.C08.Drive"], translate=lambda: T.write(T.extract()))
     thorough = not ctx.quick
     targets, skipped = build_targets(entries)
     targets += stat_targets(entries, thorough)
